@@ -255,6 +255,15 @@ def run_one(ctx, case, audit):
             ctx.inconclusive("androguard did not see the generated names: want %r got %r" % (want_names, seen_names))
             return
         ctx.count("hostile_names_reached_export" if case["kind"] != "benign-names" else "benign_cases")
+        if case["idx"] % 3 == 0:
+            # history: the same process has already exported this session to ANOTHER directory (not judged); what the judged export creates
+            # must lie inside its own output directory, not in the earlier one
+            ctx.count("exports_preceded_by_an_export_to_another_directory")
+            try:
+                with contextlib.redirect_stdout(io.StringIO()):
+                    export_apps_to_format(fin, s, os.path.join(S, "a", "b", "earlier-out"), None, None, None, case["form"])
+            except Exception:
+                pass
         out_real = os.path.realpath(out)
         db_rel = os.path.relpath(os.path.join(S, "db"), P)
         out_rel = os.path.relpath(out_real, P)
